@@ -37,8 +37,20 @@ ALPHABET = {
 def scen(w, template="linear,linear", entry="hook", S_=3, regions=1, kinds="rd", indent=0):
     names = template.split(",")
     stream = (entry == "stream")
-    pipe = pl.Pipe(w, w.flag("g90e"), extended={"G4": "exclude", "M204": "merge", "M117": "last", "M73": "merge", "M205": "merge"},
-                   arc_stub=False, summarise=not stream, track_p=False)
+    if entry == "plugin":
+        # through the real plugin hook; the first region is drawn only after some commands have been processed
+        from harness import plugin_util as pu
+        plugin = pu.make_plugin(w)
+        pu.fire(plugin, "PRINT_STARTED")
+        pipe = pl.Pipe(w, plugin=plugin, arc_stub=False, track_p=False)
+        late_spec = pl.fresh_region(w, "rect", "r0")
+        late_at = 1 + w.choose(len(names) - 1, "region-added-before-step") if len(names) > 1 else 1
+        regions = 0
+    else:
+        late_at = None
+        pipe = pl.Pipe(w, w.flag("g90e"), extended={"G4": "exclude", "M204": "merge", "M117": "last", "M73": "merge",
+                                                    "M205": "merge"},
+                       arc_stub=False, summarise=not stream, track_p=False)
     if w.symbolic:
         from symx import trig, values
         w.ctx.notes["int_bounds"] = (0, S_)
@@ -54,6 +66,12 @@ def scen(w, template="linear,linear", entry="hook", S_=3, regions=1, kinds="rd",
         SP = w.env.mod("StreamProcessor").StreamProcessor
         proc = SP(io.BytesIO(b""), pipe.handlers)
     for k, an in enumerate(names):
+        if late_at is not None and k == late_at:
+            plugin.on_api_command("addExcludeRegion", {"type": "RectangularRegion", "id": "r0",
+                                                       "x1": late_spec.params[0], "y1": late_spec.params[1],
+                                                       "x2": late_spec.params[2], "y2": late_spec.params[3]})
+            pipe.regions.append(late_spec)
+            w.cover("region-added-late")
         shapes = ALPHABET[an]
         shape = shapes[w.choose(len(shapes), "shape")]
         w.cover("shape-" + shape.tag)
@@ -123,6 +141,7 @@ def plan(tier):
     add("stream-state", "state,linear", entry="stream")
     add("stream-enter-state", "enter,state", entry="stream", indent=1)
     add("hook-enter-state-indented", "enter,state", indent=1, kinds="r")
+    add("plugin-late-region", "linear,linear", entry="plugin")
     add("stream-arcs", "arcs", entry="stream", S_=2, kinds="r")
     if tier == "thorough":
         add("hook-state-arcs", "state,arcs", S_=2)
